@@ -251,6 +251,9 @@ impl<'a> Tr<'a> {
                 if n == "LTR_LEVEL" || n == "RTL_LEVEL" {
                     return Ty::Level;
                 }
+                if self.file.stem != "level" && (n == "MAX_EXPLICIT_DEPTH" || n == "MAX_IMPLICIT_DEPTH") {
+                    return Ty::U8;
+                }
                 for (en, vars) in &self.file.enums {
                     if vars.contains(&n) && p.path.segments.len() >= 2 && p.path.segments[p.path.segments.len() - 2].ident == en.as_str() {
                         return Ty::Enum(en.clone());
@@ -268,9 +271,10 @@ impl<'a> Tr<'a> {
                 Ty::Slice(Box::new(Ty::Unknown))
             }
             Expr::Struct(st) if self.file.structs.contains_key(&last_ident(&st.path)) => Ty::Rec(last_ident(&st.path)),
-            Expr::Cast(c) => match self.infer(&c.expr) {
-                Ty::U16 | Ty::Char => Ty::Char,
-                t => t,
+            Expr::Cast(c) => match (self.infer(&c.expr), ty_of_type(&c.ty, &syn::Generics::default())) {
+                (Ty::U16, _) | (Ty::Char, _) => Ty::Char,
+                (Ty::U8, Ty::Word) | (Ty::Level, Ty::Word) => Ty::Word,
+                (t, _) => t,
             },
             Expr::Field(f) if local_name(e).map(|n| self.lookup_local(&n).is_some()).unwrap_or(false) && matches!(f.member, syn::Member::Named(_)) => {
                 self.lookup_local(&local_name(e).unwrap()).unwrap()
@@ -514,7 +518,7 @@ impl<'a> Tr<'a> {
             Expr::Cast(c) => {
                 // widening casts between unsigned integers / u16 -> u32 / char -> u32 keep the value
                 match (self.infer(&c.expr), ty_of_type(&c.ty, &syn::Generics::default())) {
-                    (Ty::U8, Ty::U8) | (Ty::U16, Ty::Word) | (Ty::U16, Ty::U16) | (Ty::Char, Ty::Word) | (Ty::Word, Ty::Word) | (Ty::Slice(_), _) => self.expr(&c.expr, b),
+                    (Ty::U8, Ty::U8) | (Ty::U8, Ty::Word) | (Ty::Level, Ty::Word) | (Ty::U16, Ty::Word) | (Ty::U16, Ty::U16) | (Ty::Char, Ty::Word) | (Ty::Word, Ty::Word) | (Ty::Slice(_), _) => self.expr(&c.expr, b),
                     (a, t) => Err(format!("cast from {:?} to {:?}", a, t)),
                 }
             }
@@ -597,6 +601,9 @@ impl<'a> Tr<'a> {
             match n.as_str() {
                 "LTR_LEVEL" => return Ok("0%nat".into()),
                 "RTL_LEVEL" => return Ok("1%nat".into()),
+                // level.rs constants as regenerated into ConstsGen.v
+                "MAX_EXPLICIT_DEPTH" => return Ok("max_depth".into()),
+                "MAX_IMPLICIT_DEPTH" => return Ok("max_implicit_depth_src".into()),
                 _ => {}
             }
         }
